@@ -660,6 +660,51 @@ def exit_path_scenarios():
     return out
 
 
+def fiber_reentry_scenarios():
+    """a chain of fibers each waiting for the next one (depth 2..4); the innermost tries to call a fiber anywhere up the chain - itself,
+    its direct caller, any earlier one - or a finished / a suspended outsider: every fiber that is waiting for a callee (or running)
+    refuses with the same error, nothing is re-entered, and the whole chain then completes in order."""
+    out = []
+    for depth in (2, 3, 4):
+        for target in list(range(depth)) + ["finished", "suspended"]:
+            for guarded in (True, False):
+                b = Builder()
+                F = lambda: b.v("Fiber")
+                b.var("log", vec())
+                b.var("fibers", vec())
+                b.fn("spare_body", ["a"]); b.expr(inv(F(), "yield", tup(lit("spare yields"), b.v("a")))); b.ret(lit("spare done")); b.end()
+                b.var("finished", inv(F(), "new", b.v("spare_body")))
+                b.expr(inv(b.v("finished"), "call", lit(1))); b.expr(inv(b.v("finished"), "call", lit(2)))
+                b.var("suspended", inv(F(), "new", b.v("spare_body")))
+                b.expr(inv(b.v("suspended"), "call", lit(3)))
+                for lvl in range(depth - 1, -1, -1):
+                    b.fn("level%d" % lvl, ["arg"])
+                    b.var("mine", lit("local of level %d" % lvl))
+                    b.expr(inv(b.v("log"), "push", tup(lit("enter"), lit(lvl), b.v("arg"))))
+                    if lvl == depth - 1:
+                        tgt = idx(b.v("fibers"), lit(target)) if isinstance(target, int) else b.v(target)
+                        if guarded:
+                            b.try_(); b.expr(inv(b.v("log"), "push", tup(lit("inner call gave"), inv(tgt, "call", lit("re-entry"))))); b.catch("e")
+                            b.expr(inv(b.v("log"), "push", tup(lit("refused"), call(b.v("type"), b.v("e")), get(b.v("e"), "context")))); b.end()
+                        else:
+                            b.expr(inv(b.v("log"), "push", tup(lit("inner call gave"), inv(tgt, "call", lit("re-entry")))))
+                    else:
+                        b.expr(inv(b.v("log"), "push", tup(lit("callee of"), lit(lvl), lit("gave"), inv(idx(b.v("fibers"), lit(lvl + 1)), "call", tup(lit("from"), lit(lvl))))))
+                    b.expr(inv(b.v("log"), "push", tup(lit("leave"), lit(lvl), b.v("mine"))))
+                    b.ret(tup(lit("result of"), lit(lvl)))
+                    b.end()
+                for lvl in range(depth):
+                    b.expr(inv(b.v("fibers"), "push", inv(F(), "new", b.v("level%d" % lvl))))
+                b.try_()
+                b.print(inv(idx(b.v("fibers"), lit(0)), "call", lit("start")))
+                b.catch("top"); b.print(tup(lit("main caught"), call(b.v("type"), b.v("top")), get(b.v("top"), "context"))); b.end()
+                b.for_("entry", b.v("log")); b.print(b.v("entry")); b.end()
+                b.print(tup(inv(b.v("suspended"), "has_finished"), inv(b.v("finished"), "has_finished")))
+                b.print(inv(b.v("suspended"), "call", lit("resume the outsider")))
+                out.append(("freentry:%d:%s:%d" % (depth, target, int(guarded)), b.toks))
+    return out
+
+
 def fiber_switch_context_scenarios():
     """a fiber switch performed while the CALLER is in every kind of context the VM keeps per-interpreter or per-fiber state
     for: inside try bodies (handler stacks), catch blocks, finally blocks with nothing / an exception / a return value pending,
